@@ -9,7 +9,9 @@
 mod common;
 mod ast;
 mod msops;
+mod desc;
 mod c01;
+mod c02;
 mod c05;
 mod c15;
 mod c18;
@@ -29,6 +31,7 @@ fn main() {
     let mut out = common::Out::new(outdir);
     match prop {
         "C01" => c01::run(&mut out, thorough, seed),
+        "C02" => c02::run(&mut out, thorough, seed),
         "C05" => c05::run(&mut out, thorough, seed),
         "C15" => c15::run(&mut out, thorough, seed),
         "C18" => c18::run(&mut out, thorough, seed),
